@@ -143,3 +143,8 @@ def obligations(tier, seed):
             vals = {k: rnd.randint(lo, hi) for k, (cls, lo, hi) in prog["lits"].items()}
             obs.append(make_process(pname, vals))
     return obs
+
+
+def gates(tier, seed):
+    from .gates import assembler_gates
+    return assembler_gates(tier, seed)
